@@ -28,6 +28,7 @@ import (
 )
 
 func init() {
+	nestedRoErr(8) // made before any case installs its hooks
 	if len(os.Args) > 2 && os.Args[1] == "faultchild" {
 		faultChild(os.Args[2:])
 		os.Exit(0)
@@ -38,7 +39,7 @@ func init() {
 // ---------- fault plans ----------
 
 type faultWhat struct {
-	kind string // "pe" | "pv" | "er"
+	kind string // "pe" | "pv" | "er" | "pw" (panic with an error that already went through the library: oe(ob(u<n>)))
 	n    int
 }
 
@@ -57,7 +58,7 @@ func parseFaultWhat(s string) (faultWhat, bool) {
 		return faultWhat{}, false
 	}
 	n, err := strconv.Atoi(s[2:])
-	if err != nil || (s[:2] != "pe" && s[:2] != "pv" && s[:2] != "er") {
+	if err != nil || (s[:2] != "pe" && s[:2] != "pv" && s[:2] != "er" && s[:2] != "pw") {
 		return faultWhat{}, false
 	}
 	return faultWhat{s[:2], n}, true
@@ -124,7 +125,37 @@ func raise(w *faultWhat) {
 		panic(userErr{w.n})
 	case "pv":
 		panic(panicVal{w.n})
+	case "pw":
+		panic(nestedRoErr(w.n))
 	}
+}
+
+// nestedRoErr(n): an error that has already been through the library twice — `ro.Observable: ro.Observer: user-n`
+// (rendered oe(ob(u<n>))) — made by the library itself: an observer whose onNext panics with userErr{n} receives
+// ob(u<n>) in its onError; an observable whose subscribe function panics with THAT error delivers oe(ob(u<n>)).
+// User code that re-panics with (or wraps) an error it received hands such values back to the library, which must
+// wrap them once more and keep the whole chain (C07: "still matches the original cause").
+var nestedMu sync.Mutex
+var nestedCache = map[int]error{}
+
+func nestedRoErr(n int) error {
+	nestedMu.Lock()
+	defer nestedMu.Unlock()
+	if e, ok := nestedCache[n]; ok {
+		return e
+	}
+	var inner, outer error
+	ro.Just(1).Subscribe(ro.NewObserver(func(int) { panic(userErr{n}) }, func(err error) { inner = err }, func() {}))
+	if inner == nil {
+		inner = userErr{n}
+	}
+	ro.NewObservable(func(dest ro.Observer[int]) ro.Teardown { panic(inner) }).Subscribe(
+		ro.NewObserver(func(int) {}, func(err error) { outer = err }, func() {}))
+	if outer == nil {
+		outer = inner
+	}
+	nestedCache[n] = outer
+	return outer
 }
 
 // fire: this invocation of `pos` panics if planned (an error return is not a panic)
@@ -712,7 +743,7 @@ func faultScripts(tier string, r *rand.Rand) [][]Tok {
 
 func singleFaults(op *faultOp) []faultSpec {
 	var out []faultSpec
-	pv := []faultWhat{{"pe", 5}, {"pv", 6}}
+	pv := []faultWhat{{"pe", 5}, {"pv", 6}, {"pw", 8}}
 	for _, pos := range op.pos {
 		switch pos {
 		case "cb":
